@@ -87,6 +87,9 @@ func absSchema(v Val, depth int) string {
 	if t, ok := st.Fields["Type"]; ok {
 		parts = append(parts, "type="+valText(t))
 	}
+	if _, ok := st.Fields["Minimum"]; ok {
+		parts = append(parts, "min0")
+	}
 	for _, k := range []string{"Items", "AdditionalProperties"} {
 		if dv, ok := st.Fields[k].(*VStruct); ok {
 			if a, ok := dv.Fields["A"]; ok {
@@ -182,11 +185,18 @@ func wireElem(kind string, sc c06Scenario) string {
 	switch kind {
 	case "bool":
 		return "{type=[boolean]}"
-	case "int32", "sint32", "sfixed32", "uint32", "fixed32":
+	case "int32", "sint32", "sfixed32":
 		return "{type=[integer]}"
-	case "int64", "sint64", "sfixed64", "uint64", "fixed64":
+	case "uint32", "fixed32":
+		return "{type=[integer] min0}" // unsigned: a lower bound of 0 is part of the wire form
+	case "int64", "sint64", "sfixed64":
 		if sc.Int64Number {
-			return "{type=[integer]}"
+			return "{type=[integer]}" // signed: no lower bound may be published
+		}
+		return "{type=[string]}"
+	case "uint64", "fixed64":
+		if sc.Int64Number {
+			return "{type=[integer] min0}"
 		}
 		return "{type=[string]}"
 	case "float", "double":
@@ -219,7 +229,7 @@ func wireShape(s Shape, sc c06Scenario) string {
 		return "{type=[object] additionalProperties=" + el + "}"
 	}
 	if sc.Nullable {
-		return strings.Replace(el, "]}", ",null]}", 1)
+		return strings.Replace(el, "]", ",null]", 1)
 	}
 	if sc.EmptyNull {
 		return "{oneOf[" + el + "|{type=[null]}]}"
@@ -744,6 +754,10 @@ func c06Responses(c *Ctx) {
 		r.Check(okOut, "R06g", "the 200 schema is the RPC's output message", c.P.Pos(decl.Pos()), "buildResponses does not name the success schema after method.Output")
 	} else {
 		r.Unres("R06g", "buildResponses", "", "not found")
+	}
+	// the 400 body satisfies FieldViolation.required
+	if ep, err := c.ServerRuntime(); err == nil {
+		violationFieldNonEmpty(c, ep, "R06g")
 	}
 	// built-in schemas vs the sebuf.http messages
 	f := c.P.Func(pkgOpenAPI, "addBuiltinErrorSchemas")
